@@ -185,5 +185,13 @@ BagEqK(ka, kb) == Len(ka) = Len(kb) /\ \A i \in 1..Len(ka) : CountKey(ka, ka[i])
 BagSubsetK(ka, kb) == \A i \in 1..Len(ka) : CountKey(ka, ka[i]) <= CountKey(kb, ka[i])
 BagEq(a, b) == Len(a) = Len(b) /\ BagEqK(Keys(a), Keys(b))
 BagSubset(a, b) == BagSubsetK(Keys(a), Keys(b))
+\* the same comparison with every list taken as a bag of its elements (used where a transformation permutes folded lists)
+RECURSIVE NormB(_)
+NormB(v) == IF v.k = "int" THEN [k |-> "int", v |-> v.v]
+            ELSE IF v.k = "list" THEN LET es == <<>> \o [i \in 1..Len(v.v) |-> NormB(v.v[i])]
+                                      IN [k |-> "bag", v |-> [x \in {es[i] : i \in 1..Len(es)} |-> Cardinality({i \in 1..Len(es) : es[i] = x})]]
+            ELSE v
+RowKeyB(r) == [n \in {r[i][1] : i \in 1..Len(r)} |-> NormB(r[CHOOSE i \in 1..Len(r) : r[i][1] = n][2])]
+BagEqB(a, b) == Len(a) = Len(b) /\ BagEqK(<<>> \o [i \in 1..Len(a) |-> RowKeyB(a[i])], <<>> \o [i \in 1..Len(b) |-> RowKeyB(b[i])])
 CountIn(rows, r) == CountKey(Keys(rows), RowKey(r))
 =============================================================================
